@@ -207,6 +207,11 @@ def text_cases(tier):
     out += [('any-bond', s) for s in ('N~[Cu]', 'C~[Fe]~C', 'N~[Cu]~N.O', 'CN(C)~[Pd](Cl)Cl', 'C1CC1~[Cu]', 'O=C~[Ni](~C=O)~C=O', 'CC#N~[Cu]Cl')]
     out += [('hydride', s) for s in ('[BH4-]', 'N#C[BH3-]', 'CC1(C)OBOC1(C)C', '[AlH4-]', 'CC(C)C[AlH]CC(C)C', 'CCCC[SnH](CCCC)CCCC', '[NH3+][BH3-]', 'C[SiH3]', '[GeH4]', 'CB(C)C', 'OB(O)c1ccccc1',
                                      'C1CCC2CCCC1B2', '[LiH]', '[NaH]', 'C[PH2]', '[AsH3]', 'C[SeH]', '[MgH2]', 'C[ZnH]', 'CC[GaH2]')]
+    # a stereo mark on sulfur / phosphorus / nitrogen, which the library does not treat as stereogenic, next to carbon centres and double bonds that it does:
+    # RDKit -> chython must carry the carbon configuration wherever the hetero centre sits in the atom order (both orders are spelled out)
+    out += [('hetero-centre', s) for s in ('C[S@](=O)C[C@H](N)C(O)=O', 'OC(=O)[C@@H](N)C[S@](C)=O', 'C[S@@](=O)C[C@H](N)C(O)=O', 'C[C@H](O)[P@](C)(=O)c1ccccc1', 'O=[P@](C)(c1ccccc1)[C@H](C)O',
+                                           'C[S@](=O)/C=C/[C@H](C)O', 'C[C@H](O)/C=C/[S@](C)=O', 'C[N@+](CC)(CCC)C[C@H](C)O', 'C[C@H](O)C[N@+](C)(CC)CCC', 'C[S@](=O)[C@H](C)[C@@H](C)O', 'O[C@@H](C)[C@H](C)[S@](C)=O',
+                                           'CC[S@](=O)C1C[C@H](C)C[C@@H](C)C1')]
     out += [('corpus', s) for s in M.corpus(stride=8 if tier == 'quick' else 1)]
     return out
 
@@ -224,7 +229,7 @@ def run_text(shard):
         if r0 is None:
             acc.ood['rdkit rejects the molecule'] += 1
             continue
-        if rdk.noncarbon_stereo(r0):
+        if rdk.noncarbon_stereo(r0) and fam != 'hetero-centre':
             acc.ood['non-carbon stereocentre'] += 1
             continue
         try:
@@ -263,6 +268,10 @@ def run_text(shard):
                 r = Chem.RenumberAtoms(r0, list(p))
                 m = check_from(acc, r, ref_str, s, bad)
                 if m is None:
+                    continue
+                if fam == 'hetero-centre':
+                    # only RDKit -> chython is judged (against the library's own reading of the text): the way back cannot restore a mark the library does not hold
+                    acc.ood['hetero-atom stereo mark: only the RDKit -> chython direction is defined'] += 1
                     continue
                 if fam == 'any-bond':
                     # RDKit has three bond types (unspecified, zero, dative) where the library has one (order 8): RDKit -> chython must give order 8 and the molecule
